@@ -142,7 +142,7 @@ Proof. exact corpus_roundtrip. Qed.
 Print Assumptions c15_roundtrip_bounded.
 
 Example c15_nonvacuous :
-  List.length corpus = 60%nat /\ rprintable_instr tcfg_fixed (RBinop I32 "r" "a" Rol "b") = true /\
+  Nat.leb 60 (List.length corpus) = true /\ rprintable_instr tcfg_fixed (RBinop I32 "r" "a" Rol "b") = true /\
   rblock_ok tcfg_fixed 5 (mk_rblock "entry" [RConst F64 "c" (RFloat "inf"); RExit]).
 Proof. split; [vm_compute; reflexivity|split; [reflexivity|]]. split; [cbn; lia|].
   intros i [<-|[<-|[]]]; split; cbn; try reflexivity; lia. Qed.
